@@ -66,7 +66,9 @@ impl<T> EventSource for Park<'_, T> {
         let wait_co = &self.queue.wait_co;
         wait_co.store(Blocker::new_coroutine(co));
         // re-check the state, only clear once after resume
-        if !self.queue.queue.is_empty() {
+        // also when the sender is gone: its drop may have come before the
+        // registration above, then nobody else would wake us up
+        if !self.queue.queue.is_empty() || self.queue.channels.load(Ordering::Relaxed) == 0 {
             if let Some(co) = wait_co.take() {
                 run_coroutine(co.into_coroutine());
             }
